@@ -1,18 +1,18 @@
 // extract_c07 is the C07 translator: it regenerates lean/ClusterVerif/Gen/C07.lean
 // (stdout) from today's source.
 //
-//  (i)  linked against the repository (build tag verif, quic overlay) it evaluates
-//       ipfscluster.DefaultRPCPolicy, the RPCClosed/RPCTrusted/RPCOpen constants and
-//       reflects the method sets of the RPC API types exactly as isRPCPolicyValid
-//       (cluster_config.go) does;
-//  (ii) with go/ast it pattern-matches, in $VERIF_REPO (default /repo):
-//       - the authorization closure inside newRPCServer (rpc_api.go) and that every
-//         rpc.NewServer call in it installs the closure, and which API types are registered;
-//       - the component list of isRPCPolicyValid (cluster_config.go);
-//       - IsTrustedPeer / Trust / Distrust of consensus/crdt and consensus/raft, the trust
-//         loop of crdt setup() and its pubsub topic validator;
-//       - how consensus/crdt/config.go turns its sources into TrustAll/TrustedPeers: Default (evaluated),
-//         LoadJSON, ApplyEnvVars, applyJSONConfig, toJSONConfig.
+//	(i)  linked against the repository (build tag verif, quic overlay) it evaluates
+//	     ipfscluster.DefaultRPCPolicy, the RPCClosed/RPCTrusted/RPCOpen constants and
+//	     reflects the method sets of the RPC API types exactly as isRPCPolicyValid
+//	     (cluster_config.go) does;
+//	(ii) with go/ast it pattern-matches, in $VERIF_REPO (default /repo):
+//	     - the authorization closure inside newRPCServer (rpc_api.go) and that every
+//	       rpc.NewServer call in it installs the closure, and which API types are registered;
+//	     - the component list of isRPCPolicyValid (cluster_config.go);
+//	     - IsTrustedPeer / Trust / Distrust of consensus/crdt and consensus/raft, the trust
+//	       loop of crdt setup() and its pubsub topic validator;
+//	     - how consensus/crdt/config.go turns its sources into TrustAll/TrustedPeers: Default (evaluated),
+//	       LoadJSON, ApplyEnvVars, applyJSONConfig, toJSONConfig.
 //
 // It fails closed: any shape it does not recognise makes it exit non-zero (a
 // failed translator obligation), it never guesses.
@@ -478,6 +478,7 @@ type shape struct {
 	final      string
 	trustOp    string
 	distrustOp string
+	addPeerOp  string
 	setup      bool
 	validator  string
 }
@@ -642,6 +643,74 @@ func countCacheRefs(dir, cache string) int {
 		})
 	}
 	return n
+}
+
+// trustCallers lists every call of a method named Trust or Distrust in the non-test sources of the given
+// directories, as "<dir>.<enclosing function>:<method>" (sorted). Who can change the trusted set is part of the
+// property: today only setup() (the configured list) does.
+func trustCallers(repo string, dirs []string) []string {
+	var out []string
+	for _, d := range dirs {
+		files, _ := filepath.Glob(filepath.Join(repo, d, "*.go"))
+		for _, p := range files {
+			if strings.HasSuffix(p, "_test.go") || strings.HasPrefix(filepath.Base(p), "verif_export") {
+				continue
+			}
+			f := parseFile(p)
+			for _, decl := range f.Decls {
+				fd, ok := decl.(*ast.FuncDecl)
+				if !ok || fd.Body == nil {
+					continue
+				}
+				ast.Inspect(fd.Body, func(n ast.Node) bool {
+					call, ok := n.(*ast.CallExpr)
+					if !ok {
+						return true
+					}
+					if sel, ok := call.Fun.(*ast.SelectorExpr); ok && (sel.Sel.Name == "Trust" || sel.Sel.Name == "Distrust") {
+						dn := d
+						if dn == "." {
+							dn = "root"
+						}
+						out = append(out, dn+"."+fd.Name.Name+":"+sel.Sel.Name)
+					}
+					return true
+				})
+			}
+		}
+	}
+	sort.Strings(out)
+	return out
+}
+
+// addPeerEffect reads what Consensus.AddPeer - reached from the OPEN endpoint Cluster.PeerAdd - does to the
+// trusted-peer cache: `return nil` is a no-op, `return <recv>.Trust(ctx, pid)` is whatever Trust does; any other
+// body must not mention the cache or Trust/Distrust (raft: membership only).
+func addPeerEffect(fd *ast.FuncDecl, cache, trustOp string) string {
+	r := recvName(fd)
+	ps := paramNames(fd.Type)
+	body := stripTracing(fd.Body.List)
+	if len(body) == 1 {
+		if ret, ok := body[0].(*ast.ReturnStmt); ok && len(ret.Results) == 1 {
+			switch str(ret.Results[0]) {
+			case "nil":
+				return ".noop"
+			case r + ".Trust(" + strings.Join(ps, ", ") + ")":
+				return trustOp
+			}
+		}
+	}
+	bad := false
+	ast.Inspect(fd.Body, func(n ast.Node) bool {
+		if sel, ok := n.(*ast.SelectorExpr); ok && (sel.Sel.Name == "Trust" || sel.Sel.Name == "Distrust" || (cache != "" && sel.Sel.Name == cache)) {
+			bad = true
+		}
+		return true
+	})
+	if bad {
+		die("AddPeer touches the trusted set in an unrecognised way")
+	}
+	return ".noop"
 }
 
 func extractSetup(fd *ast.FuncDecl) (bool, string) {
@@ -930,6 +999,7 @@ func main() {
 	crdt.trustOp = cacheOp(funcDecl(crdtFile, "Consensus", "Trust"), cache)
 	crdt.distrustOp = cacheOp(funcDecl(crdtFile, "Consensus", "Distrust"), cache)
 	crdt.setup, crdt.validator = extractSetup(funcDecl(crdtFile, "Consensus", "setup"))
+	crdt.addPeerOp = addPeerEffect(funcDecl(crdtFile, "Consensus", "AddPeer"), cache, crdt.trustOp)
 	refs := countCacheRefs(filepath.Join(repo, "consensus/crdt"), cache)
 	wantRefs := 0
 	if crdt.final == ".inSet" {
@@ -947,6 +1017,8 @@ func main() {
 	raft.trustOp = cacheOp(funcDecl(raftFile, "Consensus", "Trust"), "")
 	raft.distrustOp = cacheOp(funcDecl(raftFile, "Consensus", "Distrust"), "")
 	raft.validator = ".acceptAll"
+	raft.addPeerOp = addPeerEffect(funcDecl(raftFile, "Consensus", "AddPeer"), "", raft.trustOp)
+	callers := trustCallers(repo, []string{".", "consensus/crdt", "consensus/raft", "api/rest", "api/ipfsproxy", "pstoremgr", "cmdutils"})
 	cs := extractCfgShape(parseFile(filepath.Join(repo, "consensus/crdt/config.go")))
 
 	// --- emit
@@ -992,13 +1064,15 @@ func main() {
 	w("/-- does that server serve c.host with rpc.WithAuthorizeFunc(<the closure>) installed -/\n")
 	w("def serverGuarded : Bool → Bool\n  | false => %v\n  | true => %v\n\n", guardedPlain, guardedTracing)
 	emitShape := func(name string, s shape) {
-		w("def %s : ConsensusShape := {\n  guards := [%s],\n  final := %s,\n  trustOp := %s,\n  distrustOp := %s,\n  setupTrustsConfigured := %v,\n  validator := %s }\n\n",
-			name, strings.Join(s.guards, ", "), s.final, s.trustOp, s.distrustOp, s.setup, s.validator)
+		w("def %s : ConsensusShape := {\n  guards := [%s],\n  final := %s,\n  trustOp := %s,\n  distrustOp := %s,\n  addPeerOp := %s,\n  setupTrustsConfigured := %v,\n  validator := %s }\n\n",
+			name, strings.Join(s.guards, ", "), s.final, s.trustOp, s.distrustOp, s.addPeerOp, s.setup, s.validator)
 	}
 	w("/-- consensus/crdt: IsTrustedPeer, Trust, Distrust, setup() -/\n")
 	emitShape("crdt", crdt)
 	w("/-- consensus/raft: IsTrustedPeer, Trust, Distrust -/\n")
 	emitShape("raft", raft)
+	w("/-- every call of a method named Trust / Distrust in the non-test sources (root, consensus, api, pstoremgr, cmdutils) -/\n")
+	w("def trustCallers : List String := %s\n\n", leanStrList(callers))
 	w("/-- consensus/crdt/config.go: Default, LoadJSON, ApplyEnvVars, applyJSONConfig (toJSONConfig is the known shape) -/\n")
 	w("def cfgShape : CfgShape := {\n  defaultTrustAll := %v,\n  loadDefaults := %v,\n  loadResetsTrustAll := %v,\n  applyResetsTrustAll := %v,\n  applyResetsPeers := %v }\n\n",
 		cs.defaultTrustAll, cs.loadDefaults, cs.loadResetsTrustAll, cs.applyResetsTrustAll, cs.applyResetsPeers)
